@@ -20,8 +20,10 @@ def run_maximum_color(work: Path, fmt, flags, r, font_bytes=None):
     """Build (or take) an input font, run the real maximum_color CLI on it; -> dict(rc, log, bytes, input)."""
     work.mkdir(parents=True, exist_ok=True)
     if font_bytes is None:
+        # a COLRv0 target can express solid fills without group opacity only (C03): such requests get such sources
+        v0 = "--colr_version" in flags and flags[list(flags).index("--colr_version") + 1] == "0"
         glyphs = S.random_scenario(r, n_glyphs=r.randrange(2, 4), reuse_bias=0.5, allow_special=False,
-                                   view_box=(0, 0, 100, 100))
+                                   view_box=(0, 0, 100, 100), allow_gradients=not v0, allow_groups=not v0)
         cfg = build.base_config(color_format=fmt, keep_glyph_names=r.random() < 0.5, clip_to_viewbox=False)
         if fmt.startswith("untouched"):
             srcs = [build.Src(S.filename_for(cps), S.svg_document(specs, vb)) for cps, vb, specs in glyphs]
